@@ -687,3 +687,7 @@ Fixpoint wf_bonds (n : N) (l : list (N * N * Z)) : bool :=
   end.
 Definition wf_mol (m : rmol) : bool := wf_bonds (N.of_nat (List.length (fst m))) (snd m).
 Definition atom_back (a : ratom) : watom := WAt (r_sym a) (r_chg a) (Some (r_map a)) (Some (r_hs a)).
+
+(** two node dictionaries that differ at most in hcount *)
+Definition same_but_hc (a b : natt) : Prop :=
+  a_el a = a_el b /\ a_ar a = a_ar b /\ a_ch a = a_ch b /\ a_am a = a_am b /\ a_tgh a = a_tgh b.
